@@ -7,6 +7,14 @@
 // server in a later block whose time lies in [now-3s, now+latency]. The signaller's view of the chain is served
 // by the real feeds gRPC query server on ch.Ctx().
 //
+// Query faults: each of the daemon's four chain queries (valid validator, params, current feeds, validator prices) can
+// fail on its own for a window of ticks: QFaults are windows at drawn steps, QTraps (cyclic, one entry per
+// submission) start failing a query on the tick after a batch was handed off and keep it failing until a drawn number
+// of ticks after the batch was released, so that e.g. only the validator-prices query is down while the daemon's own
+// submission lands. The shipped daemon skips a tick whose queries do not all succeed; such ticks excuse the
+// liveness oracle like a price-service outage, and the "must emit" reference is not evaluated for them. The oracle
+// for what the daemon does submit is unchanged.
+//
 // Interval params: governance also raises and cuts MinInterval / MaxInterval / PowerStepThreshold. The chain enforces
 // the interval STORED in the current-feeds record until the next recalculation (every CurrentFeedsUpdateInterval
 // blocks); a third of the slow-update cases never recalculates within the history ("long gap") and changes these params
@@ -130,6 +138,30 @@ type govChange struct {
 	Follow   []evt `json:"follow,omitempty"`   // events; At = offset in steps from the first step that sees the new params
 }
 
+// query kinds for the fault injection
+const (
+	qValid = iota
+	qParams
+	qFeeds
+	qPrices
+	nQueries
+)
+
+var queryName = []string{"valid_validator", "params", "current_feeds", "validator_prices"}
+
+type qFault struct {
+	At  int `json:"at"`
+	Dur int `json:"dur"`
+	Q   int `json:"q"`
+}
+
+// qTrap: Q < 0 = none; otherwise query Q fails from the tick after the hand-off of the submission this entry applies to
+// until Extra ticks after its release.
+type qTrap struct {
+	Q     int `json:"q"`
+	Extra int `json:"extra,omitempty"`
+}
+
 type loopCase struct {
 	NVals    int         `json:"nvals"`
 	ValIdx   int         `json:"val"`
@@ -146,10 +178,12 @@ type loopCase struct {
 	MaxFeeds uint64      `json:"max_feeds"`
 	Sigs     []sigSpec   `json:"sigs"`
 	Events   []evt       `json:"events"`
-	BlockPat []int       `json:"block_pat"`     // steps between two blocks (cyclic), each 1..3
-	OffPat   []int       `json:"off_pat"`       // block time - step time in ms (cyclic), each in [-3000, 900]
-	SubPat   []int       `json:"sub_pat"`       // per submission (cyclic): 0..2 lands after that many steps; 3,4 delayed that many steps (also across a feeds recalculation); -1 fails at once; -2,-3 lost, released after 1,2 steps
-	Gov      []govChange `json:"gov,omitempty"` // governance changes of the feeds params, one proposal at a time, in order of At
+	BlockPat []int       `json:"block_pat"`         // steps between two blocks (cyclic), each 1..3
+	OffPat   []int       `json:"off_pat"`           // block time - step time in ms (cyclic), each in [-3000, 900]
+	SubPat   []int       `json:"sub_pat"`           // per submission (cyclic): 0..2 lands after that many steps; 3,4 delayed that many steps (also across a feeds recalculation); -1 fails at once; -2,-3 lost, released after 1,2 steps
+	Gov      []govChange `json:"gov,omitempty"`     // governance changes of the feeds params, one proposal at a time, in order of At
+	QFaults  []qFault    `json:"qfaults,omitempty"` // windows in which one of the daemon\'s queries fails
+	QTraps   []qTrap     `json:"qtraps,omitempty"`  // per submission (cyclic): a query failing around the landing of that submission
 }
 
 func genPrice(rt *rapid.T) uint64 {
@@ -347,6 +381,19 @@ func genLoop(rt *rapid.T) loopCase {
 		c.SubPat[0] = 0 // at least one entry of the cycle gets through
 	}
 	genGov(rt, &c)
+	if gen.Chance(rt, "qfaults", 2, 5) {
+		for i, nf := 0, gen.Range(rt, "nqfaults", 0, 4); i < nf; i++ {
+			c.QFaults = append(c.QFaults, qFault{At: gen.Range(rt, "qfat", 0, c.Steps-1), Dur: gen.OneOf(rt, "qfdur", 1, 1, 2, 3, 6), Q: gen.Pick(rt, "qfq", 15, 15, 20, 50)})
+		}
+		// traps around the daemon's own submissions: mostly the validator-prices query, down until after the release
+		for i, nt := 0, gen.Range(rt, "nqtraps", 2, 7); i < nt; i++ {
+			t := qTrap{Q: -1}
+			if gen.Chance(rt, "qtrap", 1, 2) {
+				t = qTrap{Q: gen.Pick(rt, "qtq", 8, 8, 14, 70), Extra: gen.OneOf(rt, "qtextra", 0, 1, 1, 2, 3)}
+			}
+			c.QTraps = append(c.QTraps, t)
+		}
+	}
 	return c
 }
 
@@ -560,6 +607,20 @@ func (c *loopCase) sanitize() {
 	for i := range c.SubPat {
 		clampI(&c.SubPat[i], -3, longDelaySteps)
 	}
+	if len(c.QFaults) > 16 {
+		c.QFaults = c.QFaults[:16]
+	}
+	for i := range c.QFaults {
+		clampI(&c.QFaults[i].Dur, 0, 8)
+		clampI(&c.QFaults[i].Q, 0, nQueries-1)
+	}
+	if len(c.QTraps) > 16 {
+		c.QTraps = c.QTraps[:16]
+	}
+	for i := range c.QTraps {
+		clampI(&c.QTraps[i].Q, -1, nQueries-1)
+		clampI(&c.QTraps[i].Extra, 0, 4)
+	}
 	if len(c.Gov) > 6 {
 		c.Gov = c.Gov[:6]
 	}
@@ -698,32 +759,54 @@ func (p *priceSvc) PushMonitoringRecords(uuid, txHash string) error      { retur
 
 // chainQuerier serves the signaller's FeedQuerier from the real feeds gRPC query server on the last committed state.
 type chainQuerier struct {
-	mu sync.Mutex
-	ch *sim.Chain
-	qs feedstypes.QueryServer
+	mu   sync.Mutex
+	ch   *sim.Chain
+	qs   feedstypes.QueryServer
+	fail [nQueries]bool // set by the harness before a tick: this query answers with a transport error
+	hits [nQueries]int  // failures served
+}
+
+func (q *chainQuerier) down(i int) error {
+	if q.fail[i] {
+		q.hits[i]++
+		return fmt.Errorf("rpc error: code = Unavailable desc = connection refused (injected, %s)", queryName[i])
+	}
+	return nil
 }
 
 func (q *chainQuerier) QueryValidValidator(val sdk.ValAddress) (*feedstypes.QueryValidValidatorResponse, error) {
 	q.mu.Lock()
 	defer q.mu.Unlock()
+	if err := q.down(qValid); err != nil {
+		return nil, err
+	}
 	return q.qs.ValidValidator(q.ch.Ctx(), &feedstypes.QueryValidValidatorRequest{Validator: val.String()})
 }
 
 func (q *chainQuerier) QueryValidatorPrices(val sdk.ValAddress) (*feedstypes.QueryValidatorPricesResponse, error) {
 	q.mu.Lock()
 	defer q.mu.Unlock()
+	if err := q.down(qPrices); err != nil {
+		return nil, err
+	}
 	return q.qs.ValidatorPrices(q.ch.Ctx(), &feedstypes.QueryValidatorPricesRequest{Validator: val.String()})
 }
 
 func (q *chainQuerier) QueryParams() (*feedstypes.QueryParamsResponse, error) {
 	q.mu.Lock()
 	defer q.mu.Unlock()
+	if err := q.down(qParams); err != nil {
+		return nil, err
+	}
 	return q.qs.Params(q.ch.Ctx(), &feedstypes.QueryParamsRequest{})
 }
 
 func (q *chainQuerier) QueryCurrentFeeds() (*feedstypes.QueryCurrentFeedsResponse, error) {
 	q.mu.Lock()
 	defer q.mu.Unlock()
+	if err := q.down(qFeeds); err != nil {
+		return nil, err
+	}
 	return q.qs.CurrentFeeds(q.ch.Ctx(), &feedstypes.QueryCurrentFeedsRequest{})
 }
 
@@ -820,6 +903,8 @@ func refDeviationBps(power, step, minDev, maxDev int64) int64 {
 // ---- run ---------------------------------------------------------------------------------------------------
 
 type flight struct {
+	trapQ        int // query kept failing around this submission (-1 none)
+	trapExtra    int
 	long         bool // delayed 3..4 ticks; not pulled into a feeds-recalculation block
 	emitFeedSet  int  // number of changes of the current-feeds id set when the daemon decided
 	prices       []feedstypes.SignalPrice
@@ -1018,6 +1103,8 @@ func runLoop(c loopCase) *pbt.Verdict {
 	daemonView := map[string]feedView{} // the current feeds as the daemon saw them at its last successful poll
 	feedSetEpoch := 0                   // number of changes of the set of current-feed ids
 	var nLongSubs, nRecalcInFlight, nRecalcSeen, nRacedFeed int64
+	qFailUntil := [nQueries]int{-1, -1, -1, -1} // a trap keeps the query failing up to and including this step
+	var nQFailTicks, nPricesDownAtLanding, nPricesDownAtAcceptedLanding, nTraps int64
 	staleSince := map[string]int{} // listed signal -> step since which its stored interval differs from what the live params give
 	var nStaleSmallerSteps int64
 	var nStaleSteps, nStaleFull, nStaleFullLarger, nStaleFullSmaller, nIntervalParamChanges, nQueryChecks int64
@@ -1277,8 +1364,39 @@ func runLoop(c loopCase) *pbt.Verdict {
 		for s := range inFlight {
 			inFlightBefore[s] = true
 		}
+		// which of the daemon's queries are down at this tick
+		var down [nQueries]bool
+		for _, qf := range c.QFaults {
+			if qf.Dur > 0 && k >= qf.At && k < qf.At+qf.Dur {
+				down[qf.Q] = true
+			}
+		}
+		for _, f := range flights {
+			if f.trapQ >= 0 && k > f.emitStep {
+				down[f.trapQ] = true // the trapped submission is still in flight
+			}
+		}
+		anyDown := false
+		for i := range down {
+			if k <= qFailUntil[i] {
+				down[i] = true
+			}
+			anyDown = anyDown || down[i]
+		}
+		fq.mu.Lock()
+		fq.fail = down
+		fq.mu.Unlock()
+		if anyDown {
+			nQFailTicks++
+			for _, f := range cf.Feeds { // the daemon cannot work at this tick: as excusable as a price-service outage
+				lastExcuse[f.SignalID] = k
+			}
+		}
 		mode := c.SubPat[subIdx%len(c.SubPat)]
 		status, h := runStep(now, mode == -1)
+		if status == signaller.VerifStepQueryError || status == signaller.VerifStepUpdateFailed {
+			required = false // a skipped tick decides nothing: the "must emit" reference does not apply to it
+		}
 		if strings.HasPrefix(status, "panic") {
 			v.Failf("panic", "step %d: signaller step panicked: %s", k, status)
 			break
@@ -1321,6 +1439,13 @@ func runLoop(c loopCase) *pbt.Verdict {
 			}
 			sort.Slice(f.prices, func(i, j int) bool { return f.prices[i].SignalID < f.prices[j].SignalID })
 			f.emitFeedSet = feedSetEpoch
+			f.trapQ = -1
+			if len(c.QTraps) > 0 {
+				if t := c.QTraps[(subIdx-1+len(c.QTraps))%len(c.QTraps)]; t.Q >= 0 {
+					f.trapQ, f.trapExtra = t.Q, t.Extra
+					nTraps++
+				}
+			}
 			if mode > maxDelaySteps {
 				if allowLong {
 					f.long = true
@@ -1626,6 +1751,19 @@ func runLoop(c loopCase) *pbt.Verdict {
 					v.Failf(fmt.Sprintf("C20/rejected:%s/%d", tr.Codespace, tr.Code),
 						"submission %v decided at now=%d (step %d) was rejected in block h=%d t=%d: %s", ids, f.emitNow.Unix(), f.emitStep, res.Height, res.Time.Unix(), firstLine(tr.Log))
 				}
+				if f.trapQ >= 0 && k+f.trapExtra > qFailUntil[f.trapQ] {
+					qFailUntil[f.trapQ] = k + f.trapExtra // the query stays down for some ticks after the release
+				}
+				pricesDownNext := k+1 <= qFailUntil[qPrices]
+				for _, qf := range c.QFaults {
+					pricesDownNext = pricesDownNext || (qf.Q == qPrices && qf.Dur > 0 && k+1 >= qf.At && k+1 < qf.At+qf.Dur)
+				}
+				if pricesDownNext {
+					nPricesDownAtLanding++
+					if tr.Code == 0 {
+						nPricesDownAtAcceptedLanding++
+					}
+				}
 				release(f)
 			}
 		}
@@ -1825,6 +1963,17 @@ func runLoop(c loopCase) *pbt.Verdict {
 	cls(nRacedFeed > 0, "submission-raced-with-feed-update")
 	cls(c.UpdEvery <= 8, "fast-feed-updates")
 	cls(c.UpdEvery >= 1000, "no-feed-recalculation-in-history")
+	fq.mu.Lock()
+	for i, n := range fq.hits {
+		v.Count("query_failures_served_"+queryName[i], int64(n))
+	}
+	fq.mu.Unlock()
+	v.Count("ticks_with_a_query_down", nQFailTicks)
+	v.Count("query_traps_armed", nTraps)
+	v.Count("landings_with_validator_prices_query_down_at_next_tick", nPricesDownAtLanding)
+	v.Count("accepted_landings_with_validator_prices_query_down_at_next_tick", nPricesDownAtAcceptedLanding)
+	cls(nQFailTicks > 0, "daemon-query-failing")
+	cls(nPricesDownAtAcceptedLanding > 0, "validator-prices-query-failing-while-own-submission-lands")
 	v.Count("interval_param_changes", nIntervalParamChanges)
 	v.Count("signal_steps_stored_interval_differs_from_live_params", nStaleSteps)
 	v.Count("stored_interval_stale_for_a_full_interval", nStaleFull)
